@@ -256,11 +256,33 @@ def corpus_programs():
     return out
 
 
-def run_side(binary, mode, inp, outp, extra=None):
+def run_side(binary, mode, inp, outp, extra=None, timeout=3000):
     cmd = [binary, mode, inp] + (extra or []) + [outp]
-    p = subprocess.run(cmd, stdout=subprocess.PIPE, stderr=subprocess.STDOUT, text=True,
-                       timeout=3000, preexec_fn=_unlimit_stack)
+    try:
+        p = subprocess.run(cmd, stdout=subprocess.PIPE, stderr=subprocess.STDOUT, text=True,
+                           timeout=timeout, preexec_fn=_unlimit_stack)
+    except subprocess.TimeoutExpired:
+        return 124, "timeout after %ds" % timeout
     return p.returncode, p.stdout
+
+
+def run_impl_one_by_one(progs, base):
+    """A shard on which the harness crashed (abort, stack overflow) or did not finish: run its
+    programs one at a time so that the culprit is identified; it gets the output `(missing ...)`."""
+    outs = []
+    for k, prog in enumerate(progs):
+        f1, f2 = base + ".one.sexp", base + ".one.impl"
+        with open(f1, "w") as f:
+            f.write(prog + "\n")
+        rc, out = run_side(HARNESS, "run", f1, f2, timeout=60)
+        line = ""
+        if rc == 0:
+            try:
+                line = open(f2).read().strip()
+            except OSError:
+                line = ""
+        outs.append(line if line else "(missing rc=%d %s)" % (rc, out.strip().replace("\n", " ")[-80:]))
+    return outs
 
 
 def run_programs(progs, workdir, shards=16, want_model=True, tier="quick"):
@@ -275,9 +297,14 @@ def run_programs(progs, workdir, shards=16, want_model=True, tier="quick"):
         base = os.path.join(workdir, "s%d" % k)
         with open(base + ".sexp", "w") as f:
             f.write("\n".join(chunks[k]) + "\n")
-        rc, out = run_side(HARNESS, "run", base + ".sexp", base + ".impl")
-        if rc != 0:
+        rc, out = run_side(HARNESS, "run", base + ".sexp", base + ".impl", timeout=1500)
+        if rc == 3:
             return k, "harness rc=%d %s" % (rc, out[-300:])
+        if rc != 0:
+            # crash or timeout of the implementation on some program of this shard
+            lines = run_impl_one_by_one(chunks[k], base)
+            with open(base + ".impl", "w") as f:
+                f.write("\n".join(lines) + "\n")
         if want_model:
             rc, out = run_side(MODEL, "run", base + ".sexp", base + ".model")
             if rc != 0:
